@@ -399,6 +399,7 @@ func (m *M) vrt(p *path, fr *Frame, ci ssa.CallInstruction, name string, args []
 		}
 		return m.done(p, fr, ci, isDefer, nil)
 	case "Advance":
+		m.advanced = true
 		for _, a := range m.timers {
 			st := m.memGet(p, a).(VInt).T
 			m.memSet(p, a, VInt{c.Ite(c.Eq(st, c.BV(1, 8)), c.BV(2, 8), st)})
